@@ -81,6 +81,37 @@ def run(ctx):
         ctx.ob('C16.2', f, 'allowed-before-run', ok and same, 'tool run is %s' % ('reachable only when allows_function(&invocation.name) is true for the invocation that runs' if ok and same else
                                                                             'reachable although tool_choice may bar the tool' if not ok else 'guarded by a test on a different value'), line=r.line)
 
+    # restrictive choices fail closed
+    ctx.rule('C16.6', 'a restrictive tool_choice fails closed: in ToolChoiceEnforcement::from_value, once the choice object has type "function" or "allowed_tools" (true edge of the string comparison), no path constructs AllFunctions — malformed or unknown entries narrow the allow-list, they never widen it.')
+    fv = P.fn('ripd::session::ToolChoiceEnforcement::from_value')
+    ctx.touch(fv)
+    allf = [bi for (bi, si, st) in fv.aggregates(r'ToolChoiceEnforcement$', 'AllFunctions')]
+    nrestr = 0
+    from .common import str_consts_compared
+    fam_fv = [fv] + P.closures_of(fv.path)
+    for (cst, site) in str_consts_compared(fv):
+        if cst not in ('function', 'allowed_tools'):
+            continue
+        sw = fv.switch_on_call(site)
+        if sw is None:
+            continue
+        bb, ts, els, neg = sw
+        true_t = ts.get('0') if (neg ^ (site.name == 'ne')) else els
+        if true_t is None:
+            continue
+        # only the comparison of the choice's own `type` (outermost match), not the per-tool filter inside the loop
+        if fv.in_loop(site.bb):
+            continue
+        nrestr += 1
+        r = fv.reach(true_t)
+        wid = [b for b in allf if b in r]
+        # closures called from the arm (collect / map fallbacks) that build AllFunctions
+        for g in fam_fv[1:]:
+            if g.aggregates(r'ToolChoiceEnforcement$', 'AllFunctions') and any(c.bb in r for c in fv.sites() if any(fv.origin(a)[0] == 'rv' and fv.origin(a)[1].get('def') == g.path for a in c.args)):
+                wid.append(-1)
+        ctx.ob('C16.6', fv, 'restrictive-fails-closed:' + cst, not wid, 'tool_choice type "%s": %s' % (cst, 'no path widens to AllFunctions' if not wid else 'a path (malformed / unknown entry) falls back to AllFunctions: excluded tools get executed'), line=site.line)
+    ctx.floor('C16.6', 'restrictive choice arms', nrestr, 2)
+
     # ---------------------------------------------------------------- C16.3
     g = P.body(STREAM)
     ctx.touch(g)
